@@ -5,7 +5,7 @@
      and post only depends on the families of its two arguments (so not on the order in which the queries were processed). *)
 From Coq Require Import ZArith QArith List Bool Lia Sorting.Permutation Sorting.Sorted.
 Import ListNotations.
-Require Import Py Pairing Core Multi Coordinator PyProofs SrcErase LocalProofs1 LocalProofs2.
+Require Import Py Pairing Core Multi Coordinator PyProofs SrcErase LocalProofs1 LocalProofs2 RowEq FreshProofs.
 Require CmapProofs.
 Open Scope Z_scope.
 
@@ -171,17 +171,22 @@ Proof. unfold fam at 1. rewrite filter_sort_by. f_equal. fold (qfam c (j ++ filt
   rewrite fam_app, fam_filter. f_equal. apply CmapProofs.filter_ext_in'. intros w Hw.
   rewrite (fam_all_key qid c f1 w Hw), mem_z_fam. reflexivity. Qed.
 
+(* repair F12: `row not in rows` only compares rows of one query id *)
+Lemma fresh_local c f1 f2 :
+  filter (fun w => negb (row_in w (qfam c f1))) (qfam c f2) = qfam c (filter (fun w => negb (row_in w f1)) f2).
+Proof. exact (fresh_rows_fam c f1 f2). Qed.
+
 Theorem post_local m md c r1 r2 o : post m md r1 r2 = Ok o -> post m md (qfam c r1) (qfam c r2) = Ok (fam_out c o).
 Proof. unfold post. destruct m.
-  - rewrite <- fam_app, !fs_local, <- fam_app.
+  - rewrite <- fam_app, !fs_local, fresh_local, <- fam_app.
     destruct (results_resolve _ md) as [[j s]|] eqn:E; cbn [bind fst snd]; [|discriminate]. intros X. injection X as <-.
     rewrite (rr_local _ c _ _ _ E). cbn [bind fst snd]. unfold fam_out. cbn [o_main o_1 o_2 option_map].
     rewrite <- (fs_local c (sort_by qid (j ++ filter (fun w => negb (mem_z (qid w) (map qid j))) (filter_subsequent (r1 ++ r2))))), best_assembly_local. reflexivity.
   - intros X. injection X as <-. rewrite !fs_local. reflexivity.
-  - rewrite !fs_local, <- fam_app.
+  - rewrite !fs_local, fresh_local, <- fam_app.
     destruct (results_resolve _ md) as [[j s]|] eqn:E; cbn [bind fst snd]; [|discriminate]. intros X. injection X as <-.
     rewrite (rr_local _ c _ _ _ E). cbn [bind fst snd]. rewrite fs_local. reflexivity.
-  - rewrite !fs_local, <- fam_app.
+  - rewrite !fs_local, fresh_local, <- fam_app.
     destruct (results_resolve _ md) as [[j s]|] eqn:E; cbn [bind fst snd]; [|discriminate]. intros X. injection X as <-.
     rewrite (rr_local _ c _ _ _ E). cbn [bind fst snd]. rewrite fs_local. reflexivity.
 Qed.
@@ -189,7 +194,7 @@ Qed.
 Theorem post_err m md r1 r2 : post m md r1 r2 = Err -> exists c, post m md (qfam c r1) (qfam c r2) = Err.
 Proof. unfold post. destruct m; try discriminate;
   (destruct (results_resolve _ md) as [js|] eqn:E; cbn [bind]; [discriminate|]); intros _;
-  destruct (rr_err _ _ E) as (c & Ec); exists c; rewrite fam_app, <- !fs_local, <- ?fam_app, <- ?fs_local in Ec;
+  destruct (rr_err _ _ E) as (c & Ec); exists c; rewrite fam_app, <- fresh_local, <- !fs_local, <- ?fam_app, <- ?fs_local in Ec;
   rewrite ?fam_app in *; rewrite Ec; reflexivity. Qed.
 
 Theorem post_same_fam m md r1 r2 r1' r2' : same_fam qid r1 r1' -> same_fam qid r2 r2' -> post m md r1 r2 = post m md r1' r2'.
